@@ -28,9 +28,19 @@ NAMES = ["EqualWeighter", "StdWeighter", "EntropyWeighter", "CRITIC"]
 def gen_case(rng, name):
     cfg = T.config(rng, name)
     positive = name == "EntropyWeighter" or rng.random() < 0.5
-    mode = rng.choice(["tiny123", "int", "dyadic", "float", "logfloat", "tight"])
+    mode = rng.choice(["tiny123", "int", "dyadic", "float", "logfloat", "tight", "unit"])
     n, m = gen.shape(rng, 9, 5, 3, 1, big=0.0)
-    if mode == "tight":
+    if mode == "unit":
+        # a matrix that is already on the unit interval in every criterion (membership degrees; the output of a
+        # min-max scaler): smallest value 0, largest value 1
+        mtx = [[rng.randint(0, 16) / 16.0 for _ in range(m)] for _ in range(n)]
+        for j in range(m):
+            a, b = rng.sample(range(n), 2)
+            mtx[a][j], mtx[b][j] = 0.0, 1.0
+        if positive:
+            mode = "int"
+            mtx = gen.values(rng, n, m, mode, positive=True)
+    elif mode == "tight":
         base = [rng.choice([10.0, 230.0, 1000.0]) for _ in range(m)]
         mtx = [[base[j] * (1 + rng.randint(-40, 40) / 10000.0) for j in range(m)] for _ in range(n)]
     else:
